@@ -15,7 +15,7 @@ mcvars == <<vars, hist>>
 \* "failnil": the failing handler returns no context along with its error
 MwLists == UNION {[1..n -> {"ok", "fail", "failnil"}] : n \in 0..MaxMw}
 Cfgs == {[auth |-> a, tls |-> "nil", params |-> <<>>, version |-> "", mw |-> m, term |-> t, limit |-> 8192] :
-            a \in {"none", "clear"}, m \in MwLists, t \in {"none", "ok"}}
+            a \in {"none", "clear"}, m \in MwLists, t \in {"none", "ok", "fail"}}
 
 Done == [op |-> "complete", tag |-> "OK"]
 RetNil == [op |-> "ret", r |-> "nil"]
